@@ -13,11 +13,13 @@ Fixpoint str_eqb (a b : str) : bool :=
   | _, _ => false
   end.
 
-Fixpoint str_cmp (a b : str) : comparison :=
+(* lexicographic comparison of lists (Python's tuple / str ordering) *)
+Fixpoint lex_cmp {A} (cmp : A -> A -> comparison) (a b : list A) : comparison :=
   match a, b with
   | [], [] => Eq | [], _ => Lt | _, [] => Gt
-  | x :: a', y :: b' => match N.compare x y with Eq => str_cmp a' b' | c => c end
+  | x :: a', y :: b' => match cmp x y with Eq => lex_cmp cmp a' b' | c => c end
   end.
+Definition str_cmp : str -> str -> comparison := lex_cmp N.compare.
 
 Definition mem (x : nat) (l : list nat) : bool := existsb (Nat.eqb x) l.
 Definition smem (x : str) (l : list str) : bool := existsb (str_eqb x) l.
